@@ -365,7 +365,8 @@ func (f *Frame) installFrameChecks(locs []assignLoc, alloc0 T) {
 		if whole {
 			return True
 		}
-		ds := []T{Lt(alloc0, idx)}
+		// ref 0 is not a location (a write through nil panics, which is a separate obligation)
+		ds := []T{Lt(alloc0, idx), Eq(idx, Zero)}
 		for _, r := range refs {
 			if strings.HasPrefix(r.S, "PRED:") {
 				ds = append(ds, T{strings.ReplaceAll(r.S[5:], "r!PLACE", idx.S), SBool})
